@@ -60,6 +60,9 @@ def oracle(summary):
         ok = False
     if not ok:
         viol.append(("verdict:" + str(v), f"closed({v}) not justified by history {h}"))
+    cause = h.get("cause")
+    if cause and not cause.startswith("?") and v != cause:
+        viol.append(("verdict-not-first-cause:" + str(cause), f"the wormhole started closing because of {cause} but reported closed({v})"))
     snap = summary["at_closed"]
     if snap and v in DOC_VERDICTS and v != "ServerConnectionError" and snap["terminator"] == "S_stopped":
         side = snap["side"]
